@@ -179,14 +179,29 @@ func runProperty(w *World, prop, tier, vdir string, start time.Time, writeBaseli
 	if tier == "thorough" {
 		quickT, fullT = 5*time.Second, 60*time.Second
 	}
-	discharge(rs, 16, quickT, fullT)
-
 	// baseline and known findings
 	var bl map[string]*baselineProp
 	if data, err := os.ReadFile(filepath.Join(vdir, "expected_obligations.json")); err == nil {
 		json.Unmarshal(data, &bl)
 	}
 	bp := bl[prop]
+	skipped := 0
+	if tier == "quick" && bp != nil && !writeBaseline {
+		// obligations that are undecided (or refuted and recorded) on the
+		// reference tree are not part of the quick claim: do not spend solver
+		// time on them (the thorough tier does)
+		for _, r := range rs {
+			for _, o := range r.Obls {
+				if o.Status == "" {
+					if st := bp.Obligations[o.Name]; st == "undecided" {
+						o.Status = "skipped"
+						skipped++
+					}
+				}
+			}
+		}
+	}
+	discharge(rs, 16, quickT, fullT)
 	known := loadKnown(filepath.Join(vdir, "KNOWN_FINDINGS.txt"))
 
 	if writeBaseline {
@@ -270,8 +285,12 @@ func runProperty(w *World, prop, tier, vdir string, start time.Time, writeBaseli
 			if bp != nil {
 				bst = bp.Obligations[o.Name]
 			}
+			if o.Status == "skipped" {
+				undecided = append(undecided, o.Name+": undecided on the reference tree (not attempted in the quick tier)")
+				continue
+			}
 			if o.Status == "unsat" {
-				if bst == "undecided" {
+				if bst == "undecided" || bst == "fails" {
 					// slow or unstable on the reference tree: not part of the claim
 					undecided = append(undecided, o.Name+" (discharged now, excluded as unstable)")
 					continue
@@ -289,7 +308,7 @@ func runProperty(w *World, prop, tier, vdir string, start time.Time, writeBaseli
 				knownHits = append(knownHits, fmt.Sprintf("KNOWN-FINDING: property=%s %s %s", prop, o.Name, kf.Text))
 				continue
 			}
-			if bst == "undecided" || (bst == "" && bp != nil && o.Status != "sat" && !contractKind(o.Kind)) {
+			if bst == "undecided" || bst == "fails" || (bst == "" && bp != nil && o.Status != "sat" && !contractKind(o.Kind)) {
 				// not part of the claim unless a counterexample replays
 				if o.Status == "sat" {
 					viols = append(viols, viol{name: o.Name, reason: "counterexample found for an obligation outside the claimed set", o: o, r: r})
@@ -439,7 +458,7 @@ func runProperty(w *World, prop, tier, vdir string, start time.Time, writeBaseli
 }
 
 func contractKind(kind string) bool {
-	return kind == "ensures" || kind == "lemma" || kind == "frame" || strings.HasPrefix(kind, "pre(") || strings.HasPrefix(kind, "inv-") || strings.HasPrefix(kind, "decreases") || kind == "callsite" || kind == "reset"
+	return kind == "ensures" || kind == "lemma" || kind == "frame" || strings.HasPrefix(kind, "pre(") || strings.HasPrefix(kind, "inv-") || strings.HasPrefix(kind, "decreases") || kind == "callsite" || kind == "reset" || kind == "footprint"
 }
 
 func countTrivial(r *FnResult) int { return r.Trivial }
